@@ -85,6 +85,15 @@ def _sweep(ctx: Ctx, item):
         ctx.sample({"ident": hex(((hi - 1) << 8) | srcs[-1]), "parsed": list(extract(((hi - 1) << 8) | srcs[-1]))})
 
 
+def _fresh_ok(second):
+    """Does a fresh decoder return a message for this packet?"""
+    from nmea2000.decoder import NMEA2000Decoder
+    try:
+        return second(NMEA2000Decoder()) is not None
+    except Exception:
+        return False
+
+
 def _public(ctx: Ctx, item):
     """Database PGNs through the four encoders and matching decoders."""
     from hypothesis import strategies as st
@@ -150,6 +159,30 @@ def _public(ctx: Ctx, item):
                 e = exp if fmt != "actisense" else (d.pgn, src, dest, prio)  # the text header carries dest verbatim
                 if got != e:
                     out.append((f"C05|public-roundtrip|{fmt}", f"{case} came back as {got}, expected {e}", case))
+            # one decoder used through several entry points: a packet of another format that carries the SAME four identifier
+            # bytes on the wire (the byte-swapped identifier) must not influence how this identifier is parsed afterwards
+            if not d.fast:
+                from .. import wire
+                pk_e = NMEA2000Encoder().encode_ebyte(m)[0]
+                pk_u = NMEA2000Encoder().encode_usb(m)[0]
+                data = pk_e[5:5 + (pk_e[0] & 0x0F)]
+                a = int.from_bytes(pk_e[1:5], "big")
+                twin = int.from_bytes(a.to_bytes(4, "big"), "little")
+                for first, second, name in ((lambda dd: dd.decode_usb(wire.usb(twin, data)), lambda dd: dd.decode_tcp(pk_e), "usb-then-ebyte"),
+                                            (lambda dd: dd.decode_tcp(wire.ebyte(twin, data)), lambda dd: dd.decode_usb(pk_u), "ebyte-then-usb")):
+                    dd = NMEA2000Decoder()
+                    try:
+                        first(dd)
+                    except Exception:
+                        pass
+                    try:
+                        r = second(dd)
+                    except Exception:
+                        r = None
+                    ctx.klass("cross_entry_point")
+                    got = (r.PGN, r.source, r.destination, r.priority) if r is not None else None
+                    if got != exp and (got is not None or _fresh_ok(second)):
+                        out.append((f"C05|cross-entry-point|{name}", f"{case}: after a {name.split('-')[0]} packet with the same identifier bytes the message came back as {got}, expected {exp}", case))
             return out
 
         ctx.hyp(check, st.integers(0, 255), st.one_of(st.sampled_from([0, 255, 1, 254]), st.integers(0, 255)),
